@@ -57,6 +57,15 @@ CHECKS = {
              'pattern must be structurally equal to e for all constants (SMT); mutated non-instances (operator changed, arity changed, a pattern constant perturbed by a symbolic non-zero delta) must fail.',
         note='Trusted: z3, SInt proxy, E1. Bounds: depth <= 2 shapes; 60 patterns x 3/9 bindings.',
         design='5/C16', engine='E1+E2'),
+    'C15': dict(
+        level='model_checking',
+        technique='symbolic execution of the real __eq__/__hash__/copy/visit/replace_expr/canonize with symbolic node fields and constants; law instances proved per path by z3; value clauses via E1',
+        text='Equality laws (reflexive, symmetric, transitive, != is the negation, e==f => hash(e)==hash(f)) on 18 node builders covering all eight node classes with '
+             'symbolic sizes, slice/compose bounds and constants, plus concrete one-field perturbations; hash of an integer is an uninterpreted function of its value. '
+             'copy()/visit(identity) equal the original and copy shares no node. Value clauses with symbolic constants: e==f implies equal value, canonize() preserves E1 value, '
+             'replace_expr({s:r}) equals a reference tree substitution under E1 for every sub-expression s.',
+        note='Trusted: z3, SInt proxy, E1, CPython str hash. Bounds: sizes 1..128, bounds 0..64, depth <= 2 shapes, singleton replacement maps.',
+        design='5/C15', engine='E2+E1'),
 }
 
 NOT_APPLICABLE = {
